@@ -6,9 +6,9 @@ import vlib
 
 LEVEL = "model_checking"
 
-TH = ["ThPolygon", "ThCoder", "ThZigZag", "ThInterleave", "ThUvarint", "ThCell", "ThCellUnion", "ThLoop", "Emit"]
+TH = ["ThTransport", "ThPolygon", "ThCoder", "ThZigZag", "ThInterleave", "ThUvarint", "ThCell", "ThCellUnion", "ThLoop", "Emit"]
 KINDS = ["centre-ring", "centre-ring-extreme", "corner-ring", "holes", "mixed", "faces", "multi", "many-loops", "special-polygon",
-         "loop", "polyline", "point", "cap", "rect", "cellid", "cellunion"]
+         "loop", "polyline", "point", "cap", "rect", "cellid", "cellunion", "long-stream"]
 
 
 def vcode(K, f, si, ti, ex):
@@ -55,7 +55,8 @@ def run(ctx):
                 "Decode(Encode(v)) = v on the model for each, and emits the bytes; the real encoder must write exactly these "
                 "bytes and the real decoder must return the value from them; non-trivial = a value with at least one vertex / "
                 "a coder sequence whose second difference wraps. (ii) round trips of seed-generated rich values recorded "
-                "from the real code and validated by Trace_Wire.tla; every event is non-trivial")
+                "from the real code and validated by Trace_Wire.tla, each also decoded through TLC-generated transports "
+                "(reader without ReadByte, pieces of 1..4097 bytes; Wire!ChunkingInvariant); every event is non-trivial")
     ctx.assumptions += [
         "model vertices are embedded on the real (si,ti) scale by a shift of 30-K bits: model level = real level, model "
         "(pi,qi) = real (pi,qi), so the model's bytes are the real bytes; the 32-bit word of the derivative coder is bound "
@@ -72,21 +73,31 @@ def run(ctx):
     # ---- (i) wire level --------------------------------------------------------
     # (K, |VA|, LMax, |VB|, NL)
     runs = [(3, 8, 3, 4, 2), (6, 6, 3, 3, 2)] if q else [(3, 9, 4, 4, 3), (4, 8, 4, 4, 2), (5, 7, 4, 3, 2), (8, 6, 3, 3, 2)]
+    transports = []
     for (K, na, lmax, nb, nl) in runs:
         va = alphabet(rnd, K, na)
         vb = set(rnd.sample(sorted(va), nb))
         longs = {n * 1000000 + rnd.randrange(1, 999) * 1000 + rnd.randrange(0, 999) for n in ([64, 70] if q else [63, 64, 65, 99])}
-        consts = {"K": K, "Kinds": {'"single"', '"multi"', '"long"', '"thresh"', '"simple"', '"prim"'}, "VA": va, "VB": vb,
-                  "LMax": lmax, "NL": nl, "LongSpec": longs, "WP": 3}
+        consts = {"K": K, "Kinds": {'"single"', '"multi"', '"long"', '"thresh"', '"simple"', '"prim"', '"transport"'}, "VA": va, "VB": vb,
+                  "LMax": lmax, "NL": nl, "LongSpec": longs, "WP": 3,
+                  "CSizes": {1, 3, 7, 8, 9, 4095, 4096, 4097} if K == runs[0][0] else {1}}
         r = ctx.tlc("Gen_Wire", vlib.cfg(constants=consts, invariants=TH), workers=8, timeout=1500, heap="6g")
         ctx.replay(r.tagged.get("CASE", []), timeout=1800)
+        transports += r.tagged.get("TRANSPORT", [])
         ctx.log("wire-level cases replayed (K=%d)" % K)
     # ---- (ii) round trips of rich values, trace direction ----------------------
     per = 50 if q else 600
     cases = []
+    # every value is also decoded through TLC-generated transports: a plain reader delivering whole buffers
+    # (the case a file or socket presents) and two seed-chosen (mode, piece lengths) combinations
+    transports = sorted(transports, key=lambda t: json.dumps(t, sort_keys=True))
+    if not transports:
+        raise vlib.Infra("TLC generated no transports")
+    whole = {"mode": "plain", "pat": [4096]}
     for k in KINDS:
-        for i in range(per):
-            cases.append({"op": "roundtrip", "kind": k, "seed": ctx.seed, "i": i, "tr": len(cases) + 1})
+        for i in range(per if k != "long-stream" else max(12, per // 10)):
+            cases.append({"op": "roundtrip", "kind": k, "seed": ctx.seed, "i": i, "tr": len(cases) + 1,
+                          "tp": [whole] + rnd.sample(transports, 2)})
     trace = os.path.join(ctx.scratch, "c09-trace.ndjson")
     os.environ["VERIF_C09_TRACE"] = trace
     try:
